@@ -178,6 +178,8 @@ func buildCase(c scase) *kase {
 		k = buildScale(c)
 	case "period":
 		k = buildPeriod(c)
+	case "drain":
+		k = buildDrain(c)
 	default:
 		return nil
 	}
